@@ -10,6 +10,7 @@
 EXTENDS Render
 
 CONSTANTS MaxLen,       \* data strings up to this length
+          MaxEnc,       \* strings of up to this many tokens over the encoded forms (and "a")
           ComboIds      \* which combos to enumerate (tier)
 
 AllIds == {c.id : c \in AllCombos}
@@ -18,8 +19,14 @@ HttpIds == {c.id : c \in HttpCombos}
 VARIABLES cb, d, st, out
 mcvars == <<cb, d, st, out>>
 
+\* strings over the encoded forms that contain at least one of them
+EncStringsUpTo(n) == TX!StringsUpTo(EncAlphabet, n) \ TX!StringsUpTo({"a"}, n)
+\* prefixed names: one shorter
+DataFor(c) == LET k == IF c.pfx = "" THEN 0 ELSE 1
+              IN TX!StringsUpTo(DataAlphabet, MaxLen - k) \cup EncStringsUpTo(MaxEnc - k)
+
 Init == /\ cb \in ComboIds
-        /\ d \in TX!StringsUpTo(DataAlphabet, IF ComboOf(cb).pfx = "" THEN MaxLen ELSE MaxLen - 1)   \* prefixed names: one shorter
+        /\ d \in DataFor(ComboOf(cb))
         /\ st = "new"
         /\ out = [echoes |-> <<>>, twin |-> "", nseg |-> 0, twins |-> <<>>, rawsite |-> "", secure |-> TRUE]
 Compute == /\ st = "new" /\ st' = "done" /\ UNCHANGED <<cb, d>>
@@ -37,7 +44,7 @@ Done == st = "done"
 Inert == Done => InertEchoes(out.echoes, HrefRawSites \cup InfoLineRawSites)
 \* the twin carries no markup metacharacter (only the separators of a line-based source), and the code's own
 \* output for it is inert at EVERY site, including the raw ones (so the twin is a sound oracle)
-TwinInert == Done => /\ TX!Chars(out.twin) \subseteq ({"a"} \cup SepSet(ComboOf(cb).seps))
+TwinInert == Done => /\ (TX!Chars(out.twin) \cap TwinMeta) \subseteq SepSet(ComboOf(cb).seps)
                      /\ InertEchoes(ModelEchoes(ComboOf(cb), out.twin), {})
                      /\ \/ Len(ModelEchoes(ComboOf(cb), out.twin)) = Len(out.echoes)
                         \/ /\ ComboOf(cb).urlfilter /\ ~UrlSecure(d)        \* refused URL: the not-found page is the twin
@@ -60,6 +67,7 @@ IdsUnique == \A x, y \in AllCombos : x.id = y.id => x = y
 W_RawSitesInert == Done => InertEchoes(out.echoes, {})
 
 ASSUME HtmlEscape("<&\"'>") = "&lt;&amp;&quot;&#x27;&gt;" /\ UrlQuote("<\"\r\n a") = "%3C%22%0D%0A%20a"
+ASSUME UrlQuote("%3C&#60;") = "%253C%26%2360%3B" /\ HtmlEscape("&lt;%22") = "&amp;lt;%22" /\ TwinOf("%3C&lt;\n", {"\n"}) = "a3Calt;\n"
 ASSUME WsCollapse("a\r\n\nb\n") = "a b " /\ SplitOn("a\n\nb", {"\n"}) = <<"a", "", "b">>
 ASSUME EscapedOK("text", "&amp;lt;a>") /\ ~EscapedOK("text", "a&b") /\ ~EscapedOK("dqattr", "a\"") /\ EscapedOK("text", "\"'")
 =============================================================================
